@@ -20,6 +20,26 @@ Theorem C01_client_monitor : forall (T : Type) (tp : transport T cmsg resp)
   c01_ok maxif ops (client_trace tp fuel_of t0 qcap maxif ops) = true.
 Proof. exact (fun T => @c01_proved T). Qed.
 
+(* "Responses whose id matches no outstanding call (late, duplicated, unsolicited) are discarded
+   without disturbing any other call": reading such a response changes NOTHING in the client's
+   state except the transport's own state and the call log of the poll in progress - for every
+   transport and every state (state equality, not just observational). *)
+Theorem C01_unknown_id_frame : forall (T : Type) (tp : transport T cmsg resp) (s : cstate (T := T))
+    (x : resp) (t : T),
+  fused s = false -> t_next tp (tr s) = (RItem x, t) -> alookup (r_id x) (inflight s) = None ->
+  pump_read tp s = (PSome tt, upd_tr s t false (plog s ++ [CNext (RItem x)])).
+Proof. exact (fun T tp => @unknown_id_frame_read T tp). Qed.
+
+(* request ids handed out to calls are pairwise distinct in every reachable state (< 2^64 ops) *)
+Theorem C01_ids_unique : forall (T : Type) (tp : transport T cmsg resp)
+    (fuel_of : cstate (T := T) -> nat) (t0 : T) (qcap maxif : nat) (ops : list (op (T := T))),
+  no_wrap ops ->
+  let s := snd (run_from tp fuel_of (init t0 qcap maxif) ops) in
+  forall i j ci cj,
+    nth_error (calls s) i = Some ci -> nth_error (calls s) j = Some cj ->
+    issued (c_phase ci) -> issued (c_phase cj) -> c_id ci = c_id cj -> i = j.
+Proof. exact (fun T tp => @ids_unique T tp). Qed.
+
 (* non-vacuity: two concurrent calls answered in reverse order, a duplicate and an unknown id *)
 Example C01_nonvacuous :
   let ops := [SCall 0 50 7 true 1; SPollCall 0; SCall 0 50 8 false 2; SPollCall 1; SPollD;
@@ -42,3 +62,5 @@ Example C01_monitor_rejects_swap :
 Proof. vm_compute. split; reflexivity. Qed.
 
 Print Assumptions C01_client_monitor.
+Print Assumptions C01_unknown_id_frame.
+Print Assumptions C01_ids_unique.
